@@ -68,7 +68,8 @@ class P(vlib.Prop):
             "Second harness (race_test.go): 24000 race rounds (fresh collector, 2-8 goroutines released by a spin barrier call "
             "Shutdown() at once; one model case per k: k x LShutCheck then k x LShutClose) and 160 free-running collectors "
             "(gates open) hit by SIGHUPs and storms of concurrent Shutdown() at random instants until Run returns; direct oracle: "
-            "no panic, no blocked call, channel closed, Run returns, event-log oracle.")
+            "no panic, no blocked call, channel closed, Run returns, event-log oracle. Independently of the model, the decidable clause "
+            "checker ObsCheck.obs_verdict (proved sound in ObsSound.v) is evaluated in Coq on the observed log of every case.")
     trusted_base = [
         "Coq 8.16.1 kernel + vm_compute (coqc); no axioms (Print Assumptions: closed under the global context)",
         "hand-written model coq/C20/Model.v of otelcol/collector.go (Run, setupConfigurationComponents, reloadConfiguration, "
@@ -93,3 +94,43 @@ class P(vlib.Prop):
         # translator T1: State constants, State.String, Collector.GetState, method set of *Collector, re-read
         # from the current source on every run; coq/C20/Tie.v proves the model's definitions equal to them
         vlib.go2coq(ctx, "otelcol", os.path.join(vlib.VERIF, "props", "C20", "t1_spec.json"), "C20State")
+
+    _CLAUSES = {1: "one-live-service", 2: "component-shutdown-at-most-once", 3: "no-bringup-after-failed-shutdown",
+                4: "provider-shutdown-at-most-once", 5: "nothing-left-started-when-run-returns",
+                6: "stopped-run-everything-shut-down-exactly-once"}
+
+    def extra_checks(self, ctx):
+        """Independent oracle: the decidable clause checker ObsCheck.obs_verdict (proved equivalent to the
+        Prop-level clauses in ObsSound.v) evaluated inside Coq on the OBSERVED log of every case, whatever the
+        model's step function says.  A case with a non-zero verdict is a failing input for that clause."""
+        terms = [c["term"] for c in ctx.cases]
+        if not terms:
+            return
+        failed = vlib.coq_eval_cases(ctx, self.harness_module, "obs_ok", self.case_type, terms, shard=self.shard)
+        ctx.extra_coverage["observed_clause_checker"] = {"cases": len(terms), "violations": len(failed)}
+        for i in failed[:30]:
+            out = vlib.coq_eval_term(ctx, self.harness_module, "obs_case %s" % terms[i]) if len(terms[i]) < 20000 else ""
+            m = __import__("re").search(r"=\s*(\d+)", out)
+            v = int(m.group(1)) if m else 0
+            ctx.oracle.append({"kind": "clause-" + self._CLAUSES.get(v, "unknown"), "term": terms[i],
+                               "detail": "Coq clause checker obs_verdict = %d on the observed log" % v,
+                               "harness": ctx.cases[i]["harness"]})
+        # (2) a broken translator obligation: enumerate the finite domain for the argument on which the generated and
+        # the hand-written definition differ, and point at an observed history that uses it
+        if any("Tie.v" in w for w, _ in ctx.broken):
+            import re
+            want = {"StateStarting": 0, "StateRunning": 1, "StateClosing": 2, "StateClosed": 3}
+            try:
+                gen = dict((m.group(1), int(m.group(2))) for m in re.finditer(
+                    r"Definition (State\w+) : Z := (\d+)\.", open(os.path.join(vlib.COQ, "Generated", "C20State.v")).read()))
+            except Exception:
+                gen = {}
+            diff = sorted(k for k in set(want) | set(gen) if want.get(k) != gen.get(k))
+            for k in diff:
+                code = gen.get(k)
+                hit = next((c["term"] for c in ctx.cases if code is not None and ("(%d, true)" % code in c["term"] or "(%d, false)" % code in c["term"])), None)
+                ctx.notes.append("translator obligation broken at argument %s: Go now has %s, the model %s; observed history sampling that "
+                                 "state code: %s" % (k, gen.get(k), want.get(k), (hit[:300] + " ...") if hit else "none"))
+            if diff:
+                ctx.notes.append("renumbering/adding a State does not by itself violate a clause of C20: reported as no-failing-input-found "
+                                 "unless the clause checker or the direct oracle also fires")
